@@ -254,7 +254,7 @@ class Exec:
         self.n_solver = 0; self.t_solver = 0.0; self.n_branches = 0
         self.callee_alias = {}      # callee text -> fn name (filled by the resolver)
         self.resolver = None
-        self.stack = []
+        self.stack = []; self.env_stack = []
         self.pre = []               # assumptions added by the entry before execution (kept in pc)
 
     # ---------------- exploration
@@ -269,13 +269,18 @@ class Exec:
         return out
 
     def run_prefix(self, entry, prefix, work):
-        self.trace = list(prefix); self.pos = 0; self.pc = []; self.work = work; self.steps = 0; self.stack = []
+        self.trace = list(prefix); self.pos = 0; self.pc = []; self.work = work; self.steps = 0; self.stack = []; self.env_stack = []
         self.solver = z3.Solver(); self.solver.set('timeout', self.solver_timeout_ms)
         self.known = {}; self.cur_model = None; self._keep = []
         try: r = ('ok', entry(self))
         except Panic as p: r = ('panic', {'msg': p.msg, 'where': p.where or (self.stack[-1] if self.stack else None), 'stack': list(self.stack[-6:])})
         except Infeasible: return []
         return [{'prefix': list(self.trace[:self.pos]), 'pc': list(self.pc), 'kind': r[0], 'result': r[1]}]
+
+    def depth(self): return len(self.stack)
+    def unwind_to(self, d):
+        """after a caught crate panic: drop the frames of the abandoned calls"""
+        del self.stack[d:]; del self.env_stack[d:]
 
     def assume(self, c):
         self.pc.append(c); self.solver.add(c); self.cur_model = None
@@ -765,10 +770,17 @@ class Exec:
         if h is not None and h.first:
             r = h(self, callee, args)
             if r is not NotImplemented: self.modelled.add(h.name); return r
+        env = self.env_stack[-1] if self.env_stack else None
+        if env:
+            mm = re.match(r'^<(&?)([A-Z]\w?) as ', callee)
+            if mm and mm.group(2) in env:
+                return self.call_callee('<' + mm.group(1) + env[mm.group(2)] + callee[mm.end(2):], args)
         name = self.resolve_callee(callee, args)
         if isinstance(name, tuple):
             name = self.resolver.resolve_dyn(name[1], name[2], args, name[3])
-        if name is not None: return self.call(name, args)
+        if name is not None:
+            e2 = self.resolver.impl_env(name, callee) if (self.resolver and '<' in callee[:callee.find(' as ')] if ' as ' in callee else False) else None
+            return self.call(name, args, e2)
         if h is not None:
             r = h(self, callee, args)
             if r is not NotImplemented: self.modelled.add(h.name); return r
@@ -778,12 +790,12 @@ class Exec:
         if norm != callee: return self.call_callee(norm, args)
         raise Unsupported('no model for ' + callee)
 
-    def call(self, fname, args):
+    def call(self, fname, args, env=None):
         fn = self.fns.get(fname)
         if fn is None: raise Unsupported('unknown function ' + fname)
         self.inlined.add(fname)
         if len(self.stack) > 400: raise Unsupported('call depth > 400 in ' + fname)
-        self.stack.append(fname)
+        self.stack.append(fname); self.env_stack.append(env)
         frame = {0: _UNIT}
         for i, a in enumerate(args): frame[i + 1] = a
         bb = 'bb0'; compiled = fn.compiled
@@ -830,7 +842,7 @@ class Exec:
                 if not self.decide(c): raise Panic(msg, fname)
                 bb = succ
             elif k == 'ret':
-                self.stack.pop(); return frame[0]
+                self.stack.pop(); self.env_stack.pop(); return frame[0]
             elif k == 'unreachable': raise Infeasible()
             elif k == 'unsupported': raise Unsupported(t[1] + ' in fn ' + fname)
             else: raise Unsupported('terminator kind ' + k)
